@@ -105,6 +105,14 @@ def replay_yuv(ctx, spec, f):
     return native.replay_native(ctx, "neutral", ["yuv", T, bd, int(full), Y.MC_STD[mi], ins["in_y"]])
 
 
+def replay_yuvx(ctx, spec, f):
+    ins = {k: int(v["bin"], 2) for k, v in (f.get("inputs") or {}).items()}
+    if "in_y" not in ins:
+        return {"reproduced": None, "detail": "inputs not found"}
+    T, bd, full, mcx, cpx = spec["inst"]
+    return native.replay_native(ctx, "neutral", ["yuvx", T, bd, int(full), mcx, ins["in_y"], cpx])
+
+
 def replay_f(ctx, spec, f):
     ins = {k: int(v["bin"], 2) for k, v in (f.get("inputs") or {}).items()}
     w = spec["what"]
@@ -153,6 +161,23 @@ def plan(tier, seed):
                           ctor="crate::yuv::verif_yuv_unchecked" if (T == "u16" and bd < 16) else "Yuv::new", unwrap="" if (T == "u16" and bd < 16) else ".unwrap()")
         hs.append(dict(name=name, family="yuv-neutral", timeout=900, mem_gb=10, replay=replay_yuv, inst=(T, bd, full, mi),
                        obligation="%s %d-bit %s %s: chroma code 2^(n-1) decodes to R=G=B (spread<=5e-7), black code -> exactly 0, white code -> 1 within 1e-6" % (T, bd, "full" if full else "limited", Y.MC_NAME[Y.MC_STD[mi]]),
+                       sym="luma code: every value in [0,2^%d)" % bd, covers=["white explored", "mid grey explored"]))
+    # matrices derived from the primaries (Identity, BT.2020-CL, ST 2085, chromaticity-derived CL, ICtCp): "every matrix" of the property
+    derived = [(0, 1), (10, 9), (11, 1), (13, 11), (14, 4)] if not thorough else [(m, c) for m in (0, 10, 11, 13, 14) for c in (1, 4, 9, 11, 13)]
+    for j, (mcx, cpx) in enumerate(derived):
+        (T, bd, full) = [("u8", 8, False), ("u16", 10, True), ("u16", 12, False)][j % 3]
+        name = "k_c16_yuvx_%s_mc%d_cp%d" % (Y.cname(T, bd, full), mcx, cpx)
+        k = 1 << (bd - 8)
+        maxv = (1 << bd) - 1
+        body = YUV % dict(name=name, T=T, bd=bd, full="true" if full else "false", mi=0, mid=1 << (bd - 1),
+                          black=0 if full else 16 * k, white=maxv if full else 235 * k,
+                          assume=("kani::assume(in_y <= %d);" % maxv) if (T == "u16" and bd < 16) else "",
+                          ctor="crate::yuv::verif_yuv_unchecked" if (T == "u16" and bd < 16) else "Yuv::new", unwrap="" if (T == "u16" and bd < 16) else ".unwrap()")
+        body = body.replace("let c = cfg(%d, %s, MC_STD[0]);" % (bd, "true" if full else "false"),
+                            "let c = YuvConfig { color_primaries: CP_ALL[%d], ..cfg(%d, %s, MC_ALL[%d]) };" % (cpx, bd, "true" if full else "false", mcx))
+        txt += body
+        hs.append(dict(name=name, family="yuv-neutral", timeout=900, mem_gb=10, replay=replay_yuvx, inst=(T, bd, full, mcx, cpx),
+                       obligation="%s %d-bit %s, matrix value #%d derived from primaries #%d: neutral chroma decodes to R=G=B (spread<=5e-7), black -> exactly 0, white -> 1 within 1e-6" % (T, bd, "full" if full else "limited", mcx, cpx),
                        sym="luma code: every value in [0,2^%d)" % bd, covers=["white explored", "mid grey explored"]))
     txt += Y.EPILOGUE
     p.modules.append(("src/yuv_rgb.rs", txt))
